@@ -17,7 +17,7 @@ def sh(cmd, **kw):
     return p.returncode, p.stdout
 
 def run_check(pid, tree, tier):
-    env = dict(os.environ, GMQ_REPO=tree, VERIF_TIER=tier)
+    env = dict(os.environ, GMQ_REPO=tree, VERIF_TIER=tier, GMQ_EVIDENCE_DIR=os.path.join(ROOT, ".build", "seeded-evidence"))
     t = time.time()
     rc, out = sh([os.path.join(ROOT, "check"), pid, "--tier", tier], cwd=ROOT, env=env)
     viol = [l for l in out.split("\n") if l.startswith("VIOLATION")]
